@@ -587,6 +587,23 @@ impl Context {
     fn add_bind(&mut self, bind: (Symbol, VPtr)) {
         self.valenv.add_bind(&[bind]);
     }
+    /// Number of bindings in the innermost frame of the value and of the type environment.
+    fn binding_marks(&self) -> (usize, usize) {
+        (
+            self.valenv.0.front().map_or(0, |binds| binds.len()),
+            self.typeenv.env.0.front().map_or(0, |binds| binds.len()),
+        )
+    }
+    /// Forget the bindings made since `marks` was taken: the variables bound by the pattern of
+    /// a `match` arm are visible in that arm only.
+    fn truncate_bindings(&mut self, marks: (usize, usize)) {
+        if let Some(binds) = self.valenv.0.front_mut() {
+            binds.truncate(marks.0);
+        }
+        if let Some(binds) = self.typeenv.env.0.front_mut() {
+            binds.truncate(marks.1);
+        }
+    }
 
     /// Recursively insert CloseHeapClosure instructions for closures found
     /// inside a value.  This captures upvalues from the stack into the heap
@@ -3564,6 +3581,8 @@ impl Context {
                 // Every arm starts from the same state cursor
                 self.begin_state_arm(base_push_sum, cells_before);
 
+                // The variables bound by the pattern are visible in this arm only
+                let marks = self.binding_marks();
                 // Extract value from the tagged union if there's a binding pattern and payload type
                 if let MatchPattern::Constructor(_, Some(inner_pattern)) = &arm.pattern
                     && let Some(vt) = *variant_ty
@@ -3580,6 +3599,7 @@ impl Context {
                 }
 
                 let (result_val, _, arm_states) = self.eval_expr(arm.body);
+                self.truncate_bindings(marks);
                 let arm_size = arm_states.iter().map(|s| s.total_size()).sum::<u64>();
                 arm_ends.push((self.end_state_arm(), arm_size));
                 cells_before += arm_size;
@@ -4129,7 +4149,8 @@ impl Context {
                 body,
                 bindings,
             } => {
-                // Bind variables by extracting from tuple
+                // Bind variables by extracting from tuple; they are visible in this arm only
+                let marks = self.binding_marks();
                 for binding in bindings {
                     let col_idx = binding.column_index;
                     if col_idx >= elem_types.len() {
@@ -4195,6 +4216,7 @@ impl Context {
                 }
                 // Evaluate body
                 let (result, _, states) = self.eval_expr(*body);
+                self.truncate_bindings(marks);
                 (result, states)
             }
 
